@@ -39,6 +39,11 @@ type E struct {
 
 type QVar struct{ Name, Type string }
 
+type GhostDef struct {
+	Name string
+	Expr *E
+}
+
 func (e *E) String() string {
 	switch e.Op {
 	case "lit":
@@ -111,6 +116,7 @@ type Contract struct {
 }
 
 type LoopSpec struct {
+	Ghost []GhostDef // snapshots taken at the loop head (after havoc), visible in lemma clauses
 	Lemma []*Clause // proved (then assumed) at every back edge before the invariants
 	Inv  []*Clause
 	Dec  []*Clause
@@ -284,8 +290,11 @@ func (p *parser) expr() *E {
 				panic(fmt.Errorf("quantifier variable expected"))
 			}
 			ty := "int"
-			if p.peek().k == "id" {
-				ty = p.next().s
+			if !p.isOp(",") && !p.isOp("::") {
+				ty = ""
+				for !p.isOp(",") && !p.isOp("::") && p.peek().k != "eof" {
+					ty += p.next().s
+				}
 			}
 			vars = append(vars, QVar{n.s, ty})
 			if p.isOp(",") {
@@ -686,6 +695,16 @@ func (cs *Contracts) loadFile(file string) error {
 					return err
 				}
 				ls.Inv = append(ls.Inv, c)
+			case "ghost":
+				i := strings.Index(rest2, "=")
+				if i < 0 {
+					return fail(fmt.Errorf("ghost needs name = expr"))
+				}
+				ge, err := ParseExpr(rest2[i+1:])
+				if err != nil {
+					return fail(err)
+				}
+				ls.Ghost = append(ls.Ghost, GhostDef{Name: strings.TrimSpace(rest2[:i]), Expr: ge})
 			case "lemma":
 				c, err := mk("lemma", rest2, k)
 				if err != nil {
